@@ -58,7 +58,7 @@ fn range_of(b: i64, e: i64) -> Expr {
 
 fn probes(thorough: bool) -> Vec<(&'static str, Stmt)> {
     let mut out: Vec<(&'static str, Stmt)> = Vec::new();
-    let strs = strings_upto(&ALPHA, if thorough { 4 } else { 3 });
+    let strs = strings_upto(&ALPHA, if thorough { 6 } else { 5 });
     let subs: Vec<String> = strings_upto(&ALPHA, 2).into_iter().filter(|x| !x.is_empty()).collect();
     for t in &strs {
         let len = t.len();
@@ -72,7 +72,7 @@ fn probes(thorough: bool) -> Vec<(&'static str, Stmt)> {
             out.push(("S1_string_index_odd", probe(index(lit(), i))));
         }
         // S2 slices
-        if len <= 9 || thorough {
+        if true {
             for b in int_domain(len) {
                 for e in int_domain(len) {
                     out.push(("S2_string_slice", probe(index(lit(), range_of(b, e)))));
@@ -88,10 +88,10 @@ fn probes(thorough: bool) -> Vec<(&'static str, Stmt)> {
         for i in odd_indices().into_iter().take(6) {
             out.push(("S4_char_byte_index_odd", probe(invoke(lit(), "char_byte_index", vec![i]))));
         }
-        if nchars <= 3 {
+        if nchars <= if thorough { 4 } else { 3 } {
             for sub in subs.iter().chain(std::iter::once(&String::new())) {
                 // find: every start for short needles; for two-character needles only when they can occur
-                let starts: Vec<i64> = if sub.chars().count() <= 1 || t.contains(sub.as_str()) || thorough { int_domain(len) } else { vec![0, -1] };
+                let starts: Vec<i64> = if sub.chars().count() <= 1 || t.contains(sub.as_str()) || true { int_domain(len) } else { vec![0, -1] };
                 for st0 in starts {
                     out.push(("S4_find", probe(invoke(lit(), "find", vec![s(sub), num(st0 as f64)]))));
                 }
@@ -186,7 +186,7 @@ fn probes(thorough: bool) -> Vec<(&'static str, Stmt)> {
     // S5 byte / code point constructors
     let bytes: Vec<Expr> = [0.0, 65.0, 127.0, 128.0, 191.0, 195.0, 226.0, 240.0, 255.0, 256.0, -1.0, 1.5].iter().map(|b| num(*b)).collect();
     let cps: Vec<Expr> = [0.0, 65.0, 2047.0, 2048.0, 55295.0, 55296.0, 57343.0, 57344.0, 1114111.0, 1114112.0, 4294967296.0, -1.0, 0.5].iter().map(|b| num(*b)).collect();
-    let maxlen = if thorough { 3 } else { 2 };
+    let maxlen = if thorough { 4 } else { 3 };
     let mut vecs: Vec<Vec<usize>> = vec![vec![]];
     let mut frontier: Vec<Vec<usize>> = vec![vec![]];
     for _ in 0..maxlen {
@@ -217,7 +217,7 @@ fn probes(thorough: bool) -> Vec<(&'static str, Stmt)> {
             out.push(("S5_from_utf8_sequences", probe(invoke(invoke(var("String"), "from_utf8", vec![mk(&[l, c1])]), "to_code_points", vec![]))));
             for &c2 in &cont {
                 out.push(("S5_from_utf8_sequences", probe(invoke(invoke(var("String"), "from_utf8", vec![mk(&[l, c1, c2])]), "to_code_points", vec![]))));
-                if l >= 0xF0 && thorough {
+                if l >= 0xF0 {
                     for &c3 in &cont {
                         out.push(("S5_from_utf8_sequences", probe(invoke(invoke(var("String"), "from_utf8", vec![mk(&[l, c1, c2, c3])]), "to_code_points", vec![]))));
                     }
@@ -309,8 +309,8 @@ pub fn run(ctx: &Ctx) -> Report {
     mcheck::fill_report(
         &mut report,
         &stats,
-        "every probe of: S1 string[i] for every string over a 1/2/3/4-byte alphabet up to 3/4 characters and every integer i in [-len-2, len+2] (every mid-character offset) plus fractional, NaN, +-inf, +-2^53, +-2^63 and non-number indices; S2 every slice b..e over the same integer domain; S3 the same for vecs and tuples of 0-4 elements including item assignment, and for every vec slice that it is a sequence of its own (pushes and item assignments on either side afterwards leave the other alone); S4 every string method with every needle of 1-2 characters and every start, classification of every string of 1-2 characters over 18 characters incl. non-ASCII letters, digits and numerals of several scripts, 40 texts for to_num; S5 from_ascii/from_utf8 over all byte vectors up to length 2/3 from boundary bytes, all lead/continuation boundary sequences, from_code_points over boundary code points; S6 escape forms. 100 probes per program, one printed line each, compared with M-str byte for byte (error class on failure).",
-        json!({"string_chars": if thorough { 4 } else { 3 }, "byte_vector_length": if thorough { 3 } else { 2 }}),
+        "every probe of: S1 string[i] for every string over a 1/2/3/4-byte alphabet up to 5/6 characters (methods other than index, slice and char_byte_index: up to 3/4 characters) and every integer i in [-len-2, len+2] (every mid-character offset) plus fractional, NaN, +-inf, +-2^53, +-2^63 and non-number indices; S2 every slice b..e over the same integer domain; S3 the same for vecs and tuples of 0-4 elements including item assignment, and for every vec slice that it is a sequence of its own (pushes and item assignments on either side afterwards leave the other alone); S4 every string method with every needle of 1-2 characters and every start, classification of every string of 1-2 characters over 18 characters incl. non-ASCII letters, digits and numerals of several scripts, 40 texts for to_num; S5 from_ascii/from_utf8 over all byte vectors up to length 3/4 from boundary bytes, all lead/continuation boundary sequences, from_code_points over boundary code points; S6 escape forms. 100 probes per program, one printed line each, compared with M-str byte for byte (error class on failure).",
+        json!({"string_chars": if thorough { 6 } else { 5 }, "byte_vector_length": if thorough { 4 } else { 3 }}),
     );
     // the honest counts: probes, not programs
     report.cov("evaluations", json!(n_probes));
